@@ -4,7 +4,7 @@ import CifModel.Spec.Lexical
   printer.  Written from the CIF 2.0 / CIF 1.1 grammars and the data model of cif.h — NOT from parser.c.
   (Python mirror used by the correspondence families: tools/gen/parsedoc.py.)
 
-    Doc    = blocks;  a block = code + elements;  an element = item | loop | save frame (one level: a frame holds items and loops)
+    Doc    = blocks;  a block = code + elements;  an element = item | loop | save frame; a save frame holds elements (frames nest)
     Val    = ? | . | string in a presentation | list | table
     a string is PRESENTED bare, '…', "…", '''…''', """…""" or as a text field; a text field may carry ANY raw body that
     the text-field protocols (line folding, prefixing) decode to the string — `enc text body`
@@ -33,7 +33,7 @@ deriving Inhabited
 
 inductive Elem where
   | plain (i : Item)
-  | frame (code : Str) (body : List Item)
+  | frame (code : Str) (body : List Elem)     -- save frames nest (whether the parser accepts that: its max_frame_depth option)
 deriving Inhabited
 
 structure Block where
@@ -88,11 +88,25 @@ def denoteItems (dia : Dialect) (nk : Str → Str) : List Item → List Loop →
   | .loop ns ps :: r, acc =>
     denoteItems dia nk r (acc ++ [{ category := none, names := ns, packets := ps.map (denoteVals dia nk) }])
 
-/-- frames and loops of a container body, in document order (`fs`, `ls`: what has been collected so far) -/
-def denoteElems (dia : Dialect) (nk : Str → Str) : List Elem → List Container → List Loop → List Container × List Loop
-  | [], fs, ls => (fs, ls)
-  | .plain i :: r, fs, ls => denoteElems dia nk r fs (denoteItems dia nk [i] ls)
-  | .frame c b :: r, fs, ls => denoteElems dia nk r (fs ++ [Container.mk c [] (denoteItems dia nk b [])]) ls
+mutual
+  /-- one element added to the frames and loops collected so far -/
+  def denoteElem (dia : Dialect) (nk : Str → Str) : Elem → List Container → List Loop → List Container × List Loop
+    | .plain i, fs, ls => (fs, denoteItems dia nk [i] ls)
+    | .frame c b, fs, ls => (fs ++ [Container.mk c (denoteElems dia nk b [] []).1 (denoteElems dia nk b [] []).2], ls)
+  /-- frames and loops of a container body, in document order (`fs`, `ls`: what has been collected so far) -/
+  def denoteElems (dia : Dialect) (nk : Str → Str) : List Elem → List Container → List Loop → List Container × List Loop
+    | [], fs, ls => (fs, ls)
+    | e :: r, fs, ls => denoteElems dia nk r (denoteElem dia nk e fs ls).1 (denoteElem dia nk e fs ls).2
+end
+
+theorem denoteElems_plain (dia : Dialect) (nk : Str → Str) (i : Item) (r : List Elem) (fs : List Container) (ls : List Loop) :
+    denoteElems dia nk (.plain i :: r) fs ls = denoteElems dia nk r fs (denoteItems dia nk [i] ls) := by
+  simp only [denoteElems, denoteElem]
+
+theorem denoteElems_frame (dia : Dialect) (nk : Str → Str) (c : Str) (b r : List Elem) (fs : List Container) (ls : List Loop) :
+    denoteElems dia nk (.frame c b :: r) fs ls =
+      denoteElems dia nk r (fs ++ [Container.mk c (denoteElems dia nk b [] []).1 (denoteElems dia nk b [] []).2]) ls := by
+  simp only [denoteElems, denoteElem]
 
 def denoteBlock (dia : Dialect) (nk : Str → Str) (b : Block) : Container :=
   Container.mk b.code (denoteElems dia nk b.body [] []).1 (denoteElems dia nk b.body [] []).2
@@ -131,13 +145,14 @@ def itemsToks : List Item → List TokSpec
   | [] => []
   | i :: r => itemToks i ++ itemsToks r
 
-def elemToks : Elem → List TokSpec
-  | .plain i => itemToks i
-  | .frame c b => (.frameHead, c) :: (itemsToks b ++ [(.frameTerm, [])])
-
-def elemsToks : List Elem → List TokSpec
-  | [] => []
-  | e :: r => elemToks e ++ elemsToks r
+mutual
+  def elemToks : Elem → List TokSpec
+    | .plain i => itemToks i
+    | .frame c b => (.frameHead, c) :: (elemsToks b ++ [(.frameTerm, [])])
+  def elemsToks : List Elem → List TokSpec
+    | [] => []
+    | e :: r => elemToks e ++ elemsToks r
+end
 
 def blocksToks : List Block → List TokSpec
   | [] => []
@@ -193,9 +208,18 @@ def itemsPieces : List Item → List Piece
   | [] => []
   | i :: r => itemPieces i ++ itemsPieces r
 
-def elemPieces : Elem → List Piece
-  | .plain i => itemPieces i
-  | .frame c b => [.sep true false, .tok (kw [115, 97, 118, 101, 95] ++ c)] ++ itemsPieces b ++ [.sep true false, .tok (kw [115, 97, 118, 101, 95])]
+mutual
+  def elemPieces : Elem → List Piece
+    | .plain i => itemPieces i
+    | .frame c b => [.sep true false, .tok (kw [115, 97, 118, 101, 95] ++ c)] ++ elemsPieces b ++ [.sep true false, .tok (kw [115, 97, 118, 101, 95])]
+  def elemsPieces : List Elem → List Piece
+    | [] => []
+    | e :: r => elemPieces e ++ elemsPieces r
+end
+
+theorem elemsPieces_eq : ∀ r : List Elem, elemsPieces r = (r.map elemPieces).flatten
+  | [] => by simp [elemsPieces]
+  | e :: r => by simp [elemsPieces, elemsPieces_eq r]
 
 def blockPieces (b : Block) : List Piece :=
   [.sep true false, .tok (kw [100, 97, 116, 97, 95] ++ b.code)] ++ (b.body.map elemPieces).flatten
@@ -227,5 +251,22 @@ def layoutOk (dia : Dialect) (l : Layout) : Nat → List Piece → Bool
   | _, [] => true
   | k, .sep rq bol :: r => sepOk dia rq bol (l k) && layoutOk dia l (k + 1) r
   | k, .tok _ :: r => layoutOk dia l k r
+
+/-! ### elements that are items (the body of a save frame without frames inside, the items of a block) -/
+
+theorem denoteElems_plains (dia : Dialect) (nk : Str → Str) : ∀ (its : List Item) (fs : List Container) (ls : List Loop),
+    denoteElems dia nk (its.map Elem.plain) fs ls = (fs, denoteItems dia nk its ls)
+  | [], fs, ls => by simp [denoteElems, denoteItems]
+  | i :: r, fs, ls => by
+    rw [List.map_cons, denoteElems_plain, denoteElems_plains dia nk r]
+    cases i <;> simp [denoteItems]
+
+theorem elemsToks_plains : ∀ its : List Item, elemsToks (its.map Elem.plain) = itemsToks its
+  | [] => by simp [elemsToks, itemsToks]
+  | i :: r => by simp [elemsToks, elemToks, itemsToks, elemsToks_plains r]
+
+theorem elemsPieces_plains : ∀ its : List Item, elemsPieces (its.map Elem.plain) = itemsPieces its
+  | [] => by simp [elemsPieces, itemsPieces]
+  | i :: r => by simp [elemsPieces, elemPieces, itemsPieces, elemsPieces_plains r]
 
 end CifModel.Spec.Grammar
